@@ -94,6 +94,21 @@ func (x *Exec) resolveType(env *SpecEnv, t *TypeExpr) *SType {
 		return &SType{Math: "seq", Elem: x.resolveType(env, t.Elem)}
 	case "mmap":
 		return &SType{Math: "mmap", Key: x.resolveType(env, t.Key), Elem: x.resolveType(env, t.Elem)}
+	case "inst":
+		base := x.resolveType(env, &TypeExpr{Kind: "name", Name: t.Name})
+		named, ok := base.G.(*types.Named)
+		if !ok {
+			sfail("%s is not a generic type", t.Name)
+		}
+		var targs []types.Type
+		for _, a := range t.Args {
+			targs = append(targs, x.resolveType(env, a).G)
+		}
+		inst, err := types.Instantiate(nil, named, targs, false)
+		if err != nil {
+			sfail("cannot instantiate %s: %v", t.Name, err)
+		}
+		return goT(inst)
 	case "name":
 		if t.Name == "struct{}" {
 			return goT(types.NewStruct(nil, nil))
@@ -326,6 +341,14 @@ func (x *Exec) evalIdent(env *SpecEnv, name string) SVal {
 			}
 			v, ok := env.st.cells[a]
 			if !ok {
+				// old(...) in a loop invariant: a parameter's value at function entry
+				for _, p := range env.fr.fn.Params {
+					if p.Name() == name {
+						if pv, has := env.fr.vals[p]; has {
+							return SVal{pv, goT(p.Type())}
+						}
+					}
+				}
 				sfail("local %s has no value here", name)
 			}
 			return SVal{v, goT(elem)}
